@@ -59,6 +59,8 @@ pub struct Explored {
     pub replays: u64,
     pub max_depth: usize,
     pub dead_paths: u64,
+    /// schedules without driver faults that end in an unfinished state with nothing enabled
+    pub stalls: Vec<Vec<Ev>>,
 }
 
 impl Explored {
@@ -162,6 +164,9 @@ pub fn explore_with(cfg: &Rc<Cfg>, refr: &Rc<Reference>, opts: &Opts) -> Result<
                 } else {
                     sim.enabled(opts.allow_fail, opts.allow_abort, opts.allow_reconsider)
                 };
+                if !fin && !sim.dead && en.is_empty() && !sim.aborted && !sim.res.iter().any(|r| matches!(r, Res::Failed | Res::AbortedRunning)) && out.stalls.len() < 4 {
+                    out.stalls.push(sim.events.clone());
+                }
                 if fin && !sim.dead {
                     if let Some(t) = terminal_checks(&mut sim, &snap, m, &mut out.ex) {
                         if en.is_empty() {
@@ -194,11 +199,23 @@ pub fn explore_with(cfg: &Rc<Cfg>, refr: &Rc<Reference>, opts: &Opts) -> Result<
         {
             let ff: Vec<(&Terminal, &Vec<Ev>)> = out.driver_fault_free_terminals();
             any_ff = !ff.is_empty();
-            let mut distinct: BTreeMap<(&Vec<Disp>, &Hist), &Vec<Ev>> = BTreeMap::new();
+            // outcome: disposition of every job (for an executed Ephemeral this includes whether its
+            // cleanup was offered) and the returned history
+            let mut distinct: BTreeMap<(&Vec<Disp>, &Hist, &Vec<bool>), &Vec<Ev>> = BTreeMap::new();
             for (t, e) in ff.iter() {
-                distinct.entry((&t.disp, &t.hist)).or_insert(e);
+                distinct.entry((&t.disp, &t.hist, &t.offered)).or_insert(e);
             }
-            if distinct.len() > 1 {
+            if !ff.is_empty() && !out.stalls.is_empty() {
+                c14 = Some(Found {
+                    viol: viol(
+                        "C14",
+                        "schedule-dependent-stall",
+                        format!("the schedule {:?} finishes, the schedule {:?} ends unfinished with nothing ready or running", ff[0].1, out.stalls[0]),
+                    ),
+                    events: out.stalls[0].clone(),
+                });
+            }
+            if distinct.len() > 1 && c14.is_none() {
                 let mut it = distinct.iter();
                 let a = it.next().unwrap();
                 let b = it.next().unwrap();
@@ -207,14 +224,16 @@ pub fn explore_with(cfg: &Rc<Cfg>, refr: &Rc<Reference>, opts: &Opts) -> Result<
                         "C14",
                         "schedule-dependent-outcome",
                         format!(
-                            "{} distinct failure-free outcomes, e.g. after {:?}: {:?} / {:?}  vs after {:?}: {:?} / {:?}",
+                            "{} distinct failure-free outcomes, e.g. after {:?}: {:?} / {:?} / cleanup offered {:?}  vs after {:?}: {:?} / {:?} / cleanup offered {:?}",
                             distinct.len(),
                             a.1,
                             a.0 .0,
                             a.0 .1,
+                            a.0 .2,
                             b.1,
                             b.0 .0,
-                            b.0 .1
+                            b.0 .1,
+                            b.0 .2
                         ),
                     ),
                     events: (*b.1).clone(),
